@@ -84,10 +84,10 @@ Lemma cross_sub_dot (x y z w m : V3) :
   = vdot Rops (vcross Rops (vsub Rops x z) w) m - vdot Rops (vcross Rops (vsub Rops y z) w) m.
 Proof. vsimp x; vsimp y; vsimp z; vsimp w; vsimp m. unf. ring. Qed.
 
-Lemma tri_face_ff :
-  face_ff n q [a; b; c] = cscale (s * vdot Rops q n / vdot Rops q q) (cmul (0, 1) (S_cos A be ga, - S_sin A be ga)).
+Lemma tri_polygon_phase ph :
+  cmul (polygon_ff n p [a; b; c]) (cexp_i (- ph))
+  = cscale s (S_cos (vdot Rops p a + ph) be ga, - S_sin (vdot Rops p a + ph) be ga).
 Proof.
-  rewrite /face_ff. cbn [hd]. set (qn := vdot Rops q n). set (ph := qn * vdot Rops n a).
   have Ne1 := n_e1. have Ne2 := n_e2.
   have Pab : vdot Rops p (vsub Rops b a) = be by exact (p_e e1 Ne1).
   have Pac : vdot Rops p (vsub Rops c a) = ga by exact (p_e e2 Ne2).
@@ -97,31 +97,46 @@ Proof.
   have Pca : vdot Rops p (vsub Rops a c) = - ga.
   { have -> : vdot Rops p (vsub Rops a c) = - vdot Rops p (vsub Rops c a) by rewrite !dot_sub_r; ring. rewrite Pac. ring. }
   rewrite /polygon_ff /cpairs /roll. cbn [app combine map csum fold_right fst snd].
-  rewrite -/p.
   rewrite (edge_term_closed _ p a b); last by rewrite Pab.
   rewrite (edge_term_closed _ p b c); last by rewrite Pbc; lra.
   rewrite (edge_term_closed _ p c a); last by rewrite Pca; lra.
   rewrite Pab Pbc Pca.
   rewrite !cmul_cadd cmul_zero !phase_pair.
-  have Xa : vdot Rops p a + ph = A. { rewrite p_x /ph /qn /A. ring. }
-  have Xb : vdot Rops p b + ph = A + be.
-  { have -> : vdot Rops p b = vdot Rops p a + vdot Rops p (vsub Rops b a) by rewrite dot_sub_r; ring. rewrite Pab -Xa. ring. }
-  have Xc : vdot Rops p c + ph = A + ga.
-  { have -> : vdot Rops p c = vdot Rops p a + vdot Rops p (vsub Rops c a) by rewrite dot_sub_r; ring. rewrite Pac -Xa. ring. }
-  rewrite Xa Xb Xc.
+  set X := vdot Rops p a + ph.
+  have Xb : vdot Rops p b + ph = X + be.
+  { have -> : vdot Rops p b = vdot Rops p a + vdot Rops p (vsub Rops b a) by rewrite dot_sub_r; ring. rewrite Pab /X. ring. }
+  have Xc : vdot Rops p c + ph = X + ga.
+  { have -> : vdot Rops p c = vdot Rops p a + vdot Rops p (vsub Rops c a) by rewrite dot_sub_r; ring. rewrite Pac /X. ring. }
+  rewrite Xb Xc.
   have Kbc : vdot Rops (vcross Rops (vsub Rops c b) p) n
              = vdot Rops (vcross Rops e2 p) n - vdot Rops (vcross Rops e1 p) n by rewrite /e1 /e2; apply cross_sub_dot.
   have Kca : vdot Rops (vcross Rops (vsub Rops a c) p) n = - vdot Rops (vcross Rops e2 p) n.
   { rewrite /e2. vsimp a; vsimp c; vsimp n. move: p => [[p1 p2] p3]. unf. ring. }
   rewrite Kbc Kca. have HsQ := sQ.
   have HQ : vdot Rops p p <> 0. { move=> H0. apply Hb. rewrite -Pab. exact: qq_zero. }
-  have Hqq : vdot Rops q q <> 0. { move=> H0. apply Hb. rewrite /be. exact: qq_zero. }
   move: HsQ HQ. rewrite -/e1.
   set k1 := vdot Rops (vcross Rops e1 p) n. set k2 := vdot Rops (vcross Rops e2 p) n. set Q := vdot Rops p p.
   move=> HsQ HQ.
   have -> : s = (k1 * ga - k2 * be) / Q by rewrite -HsQ; field.
   rewrite /S_cos /S_sin /cscale /cmul /cadd. cbn [fst snd].
   apply cx_eq; cbn [fst snd]; field; repeat split; try assumption; try lra.
+Qed.
+
+(* the polygon method on its own, any plane: s * (Fourier integral of the triangle for the projected wave vector) *)
+Lemma tri_polygon_ff :
+  polygon_ff n p [a; b; c] = cscale s (S_cos (vdot Rops p a) be ga, - S_sin (vdot Rops p a) be ga).
+Proof.
+  have H := tri_polygon_phase 0. rewrite Ropp_0 Rplus_0_r in H. rewrite -H.
+  rewrite /cexp_i cos_0 sin_0 /cmul. cbn [fst snd]. apply cx_eq; cbn [fst snd]; ring.
+Qed.
+
+Lemma tri_face_ff :
+  face_ff n q [a; b; c] = cscale (s * vdot Rops q n / vdot Rops q q) (cmul (0, 1) (S_cos A be ga, - S_sin A be ga)).
+Proof.
+  rewrite /face_ff. cbn [hd]. rewrite -/p tri_polygon_phase.
+  have -> : vdot Rops p a + vdot Rops q n * vdot Rops n a = A by rewrite p_x /A; ring.
+  rewrite /cscale /cmul. cbn [fst snd]. apply cx_eq; cbn [fst snd]; field.
+  all: move=> H0; apply Hb; rewrite /be; exact: qq_zero.
 Qed.
 
 End Triangle.
@@ -201,4 +216,23 @@ Proof.
   have -> : J = (al * p1 + be * p2 + ga * p3) / qq by rewrite -HJ; field.
   rewrite /cadd /cscale /cmul. cbn [fst snd].
   apply cx_eq; cbn [fst snd]; field; exact Hqq.
+Qed.
+
+(* ---- the polygon method on any plane, as Fourier integrals ---- *)
+Theorem triangle_any_plane_is_fourier n q a b c s :
+  vdot Rops n n = 1 -> s <> 0 -> vcross Rops (vsub Rops b a) (vsub Rops c a) = vscale Rops s n ->
+  let p := qpar n q in
+  let A := vdot Rops p a in let be := vdot Rops p (vsub Rops b a) in let ga := vdot Rops p (vsub Rops c a) in
+  be <> 0 -> ga <> 0 -> be <> ga ->
+  polygon_ff n p [a; b; c]
+  = cscale s (RInt (fun u => RInt (fun v => cos (A + u * be + v * ga)) 0 (1 - u)) 0 1,
+              - RInt (fun u => RInt (fun v => sin (A + u * be + v * ga)) 0 (1 - u)) 0 1).
+Proof.
+  move=> Hn Hs HN p A be ga Hb Hg Hbg.
+  have Ne1 := n_e1 n a b c s Hs HN. have Ne2 := n_e2 n a b c s Hs HN.
+  have Eb : be = vdot Rops q (vsub Rops b a) by rewrite /be /p; apply (p_e n q _ Ne1).
+  have Eg : ga = vdot Rops q (vsub Rops c a) by rewrite /ga /p; apply (p_e n q _ Ne2).
+  rewrite (S_cos_integral A be ga Hb Hg Hbg) (S_sin_integral A be ga Hb Hg Hbg).
+  rewrite Eb Eg in Hb Hg Hbg *.
+  exact (tri_polygon_ff n q a b c s Hn Hs HN Hb Hg Hbg).
 Qed.
